@@ -236,6 +236,9 @@ func (g *G) heredoc() *Heredoc {
 	if h.Dash && g.p(1, 2) {
 		h.TabTerm = true
 	}
+	if !h.Quoted && h.DelimText != "" && g.p(1, 12) {
+		h.ContTerm = 1 + g.n(len([]rune(h.DelimText)))
+	}
 	nl := g.n(5)
 	for i := 0; i < nl; i++ {
 		var ln []Part
